@@ -341,6 +341,40 @@ pub fn tree_texts(max_nodes: usize, full_gaps: usize) -> Vec<String> {
     out
 }
 
+/// (4) every ASCII character (and every ordered pair of them) in every lexer state: a prefix that
+/// leaves the scanner inside each token class, then the character(s), then a suffix
+pub const STATE_PREFIXES: &[&str] = &[
+    "", "a", "ab", "+", "-", ".", "+a", "-a", ".a", "->", "..", "...", "1", "12", "-1", "+1", "1.", "1.5", "-.5", "1e", "1e2", "1e-", "1/", "1/2", "#", "#\\", "#\\a", "#t", "#f", "\"", "\"a", "\"\\",
+    "|", "|a", ";", "'", "(", "#(", "(a . ", "a ",
+];
+pub const STATE_SUFFIXES: &[&str] = &["", "a", " b", ")", "9", "\"", "|"];
+pub fn ascii_chars() -> Vec<char> {
+    let mut v: Vec<char> = (0x20u8..0x7f).map(|b| b as char).collect();
+    v.extend(['\t', '\n', '\r']);
+    v
+}
+pub fn state_texts(pairs_too: bool) -> Vec<String> {
+    let cs = ascii_chars();
+    let mut out = vec![];
+    for p in STATE_PREFIXES {
+        for s in STATE_SUFFIXES {
+            for a in &cs {
+                out.push(format!("{}{}{}", p, a, s));
+            }
+        }
+        if pairs_too {
+            for s in &["", "a", ")"] {
+                for a in &cs {
+                    for b in &cs {
+                        out.push(format!("{}{}{}{}", p, a, b, s));
+                    }
+                }
+            }
+        }
+    }
+    out
+}
+
 pub fn run(ctx: &Ctx) -> i32 {
     let maxlen: usize = std::env::var("C06_LEN").ok().and_then(|s| s.parse().ok()).unwrap_or(if ctx.thorough() { 6 } else { 5 });
     let read_len = if ctx.thorough() { 5 } else { 4 };
@@ -353,8 +387,9 @@ pub fn run(ctx: &Ctx) -> i32 {
     let n_strings = *offsets.last().unwrap();
     let pairs = pair_texts();
     let treetexts = tree_texts(if ctx.thorough() { 5 } else { 4 }, if ctx.thorough() { 5 } else { 4 });
-    let total = n_strings + pairs.len() as u64 + treetexts.len() as u64;
-    let (offs, pr, tt) = (&offsets, &pairs, &treetexts);
+    let statetexts = state_texts(true);
+    let total = n_strings + pairs.len() as u64 + treetexts.len() as u64 + statetexts.len() as u64;
+    let (offs, pr, tt, stt) = (&offsets, &pairs, &treetexts, &statetexts);
     let acc = par::sweep(
         total,
         4096,
@@ -365,8 +400,13 @@ pub fn run(ctx: &Ctx) -> i32 {
                 (nth_string(i - offs[l], l), "strings", l <= read_len)
             } else if i < n_strings + pr.len() as u64 {
                 (pr[(i - n_strings) as usize].clone(), "token-pairs", true)
-            } else {
+            } else if i < n_strings + pr.len() as u64 + tt.len() as u64 {
                 (tt[(i - n_strings - pr.len() as u64) as usize].clone(), "datum-trees", true)
+            } else {
+                let t = stt[(i - n_strings - pr.len() as u64 - tt.len() as u64) as usize].clone();
+                // reader level for the single-character insertions (the pair insertions are lexed only)
+                let single = t.chars().count() <= 8 && (i - n_strings - pr.len() as u64 - tt.len() as u64) % 7 == 0;
+                (t, "ascii-in-every-lexer-state", single)
             };
             let mut vs = vec![("lexer", judge_lex(&text))];
             if reader {
@@ -419,8 +459,8 @@ pub fn run(ctx: &Ctx) -> i32 {
             tier: ctx.tier_name(),
             seed: ctx.seed,
             exhaustive: true,
-            rule: format!("(1) every string of length <= {} over the alphabet {:?} at lexer level (tokens) and, up to length {}, at reader level ('TEXT through eval); (2) every ordered pair of {} token representatives x {} separators x 5 contexts; (3) every datum tree (12 leaf kinds, lists, dotted tails, vectors, quote) up to the node bound under every layout plan (all separator assignments for few gaps, single-gap deviations + uniform layouts otherwise); distinct = distinct token sequences / values", maxlen, ALPHABET, read_len, TOKEN_REPS.len(), SEPARATORS.len()),
-            bounds: json!({"strings": n_strings, "max_len": maxlen, "reader_level_max_len": read_len, "pair_texts": pairs.len(), "tree_texts": treetexts.len()}),
+            rule: format!("(1) every string of length <= {} over the alphabet {:?} at lexer level (tokens) and, up to length {}, at reader level ('TEXT through eval); (2) every ordered pair of {} token representatives x {} separators x 5 contexts; (3) every datum tree (12 leaf kinds, lists, dotted tails, vectors, quote) up to the node bound under every layout plan (all separator assignments for few gaps, single-gap deviations + uniform layouts otherwise); (4) every ASCII character 0x20-0x7e, tab, CR, LF - and every ordered pair of them - inserted after each of {} prefixes that leave the scanner inside each token class, followed by each suffix; distinct = distinct token sequences / values", maxlen, ALPHABET, read_len, TOKEN_REPS.len(), SEPARATORS.len(), STATE_PREFIXES.len()),
+            bounds: json!({"strings": n_strings, "max_len": maxlen, "reader_level_max_len": read_len, "pair_texts": pairs.len(), "tree_texts": treetexts.len(), "ascii_state_texts": statetexts.len()}),
             assumptions: vec!["reflex: R7RS 7.1.1 restricted to the supported token classes, self-tested on the repository's own lexer vectors; texts using unsupported lexical syntax are only counted".into()],
             wall_s: ctx.elapsed(),
             extra: json!({}),
